@@ -404,7 +404,8 @@ def cases(rng, n_each=8, trail=True):
                     hdr = bytes([rng.randrange(2) << 7 | 0x1D, len(pb)])
                     pe = dict(pv_, ps=hdr[0] >> 7, spf=0, page_code=0x1D)
                 pgs.append((hdr + bytes(pb), pe))
-            bd = bytes(rng.randrange(256) for _ in range(rng.choice([0, 0, 8])))
+            # block descriptors: none, one, two — and for MODE SENSE(10), whose BLOCK DESCRIPTOR LENGTH has two bytes, 32 or more of them
+            bd = bytes(rng.randrange(256) for _ in range(rng.choice([0, 0, 8, 16, 256, 320, 512] if ten else [0, 0, 8, 16])))
             body = bd + b"".join(x[0] for x in pgs)
             mt, dsp = rng.randrange(256), rng.randrange(256)
             if ten:
